@@ -2,13 +2,13 @@
 (* Trace validation for the clock clauses of C18.                            *)
 (* Input: IOEnv.TRACE_FILE = JSON array of executions of the real            *)
 (* LamportClock / VectorClock / HybridLogicalClock objects:                  *)
-(*   [ id |-> n, nn |-> number of nodes,                                     *)
+(*   [ id |-> n, nn |-> number of nodes, z |-> rank of physical time 0,      *)
 (*     ev  |-> << <<node, kind(0 local,1 send,2 recv), src event|0, pt>> >>, *)
 (*     lam |-> << Lamport stamp of event i >>,                               *)
 (*     vc  |-> << vector stamp of event i (sequence of nn counters) >>,      *)
 (*     hl  |-> << <<physical rank, logical, node>> of event i >>,            *)
-(*     vlt |-> pairs <<i,j>> for which the real happened_before() is true,   *)
-(*     hlt |-> pairs <<i,j>> for which the real HLCTimestamp `<` is true ]   *)
+(*     vm[i][j] = 1 iff the real vc_i.happened_before(vc_j) is true,        *)
+(*     hm[i][j] = 1 iff the real HLCTimestamp hl_i < hl_j is true ]          *)
 (* Physical readings are order-preserving ranks (the algorithm only compares *)
 (* and maximises them).  hb is recomputed from ev alone.  One verdict line   *)
 (* per trace: <<"V", id, verdict, pos>>, verdict = ACCEPT | PROP:<clause> |  *)
@@ -24,44 +24,42 @@ tvars == <<lam, vc, hlc, ev, hb, ti, l, bad, mbad, mpos>>
 
 Tr == Traces[ti]
 KindOf(k) == IF k = 0 THEN "local" ELSE IF k = 1 THEN "send" ELSE "recv"
-SeqSet(s) == { s[i] : i \in 1..Len(s) }
+\* results of the real comparisons, as 0/1 matrices
+VLT(i, j) == Tr.vm[i][j] = 1
+HLT(i, j) == Tr.hm[i][j] = 1
 
-Fresh(nn) ==
+\* z = rank of physical time 0 (the initial HLC timestamp) among the trace's readings
+Fresh(nn, z) ==
     /\ lam = [n \in 1..nn |-> 0]
     /\ vc = [n \in 1..nn |-> [k \in 1..nn |-> 0]]
-    /\ hlc = [n \in 1..nn |-> <<0, 0>>]
+    /\ hlc = [n \in 1..nn |-> <<z, 0>>]
     /\ ev = <<>> /\ hb = {}
 
 TInit ==
     /\ ti = 1 /\ l = 1 /\ bad = "" /\ mbad = "" /\ mpos = 0
-    /\ Fresh(IF NT = 0 THEN 1 ELSE Traces[1].nn)
+    /\ Fresh(IF NT = 0 THEN 1 ELSE Traces[1].nn, IF NT = 0 THEN 0 ELSE Traces[1].z)
 
 \* contract on the observed stamps, pairs involving the new event j; h = hb including j
 PropVerdict(j, h) ==
-    LET VLT == SeqSet(Tr.vlt)
-        HLT == SeqSet(Tr.hlt)
-    IN IF \E i \in 1..(j - 1) : <<i, j>> \in h /\ ~(Tr.lam[i] < Tr.lam[j]) THEN "PROP:lamport_order"
-       ELSE IF \E i \in 1..(j - 1) : <<i, j>> \in h /\ <<i, j>> \notin HLT THEN "PROP:hlc_order"
-       ELSE IF \E i \in 1..(j - 1) : <<i, j>> \in h /\ <<i, j>> \notin VLT
-            THEN "PROP:vc_misses_causal_pair"
-       ELSE IF \E i \in 1..(j - 1) : (<<i, j>> \in VLT /\ <<i, j>> \notin h) \/ <<j, i>> \in VLT
-            THEN "PROP:vc_orders_unrelated_pair"
-       ELSE ""
+    IF \E i \in 1..(j - 1) : <<i, j>> \in h /\ ~(Tr.lam[i] < Tr.lam[j]) THEN "PROP:lamport_order"
+    ELSE IF \E i \in 1..(j - 1) : <<i, j>> \in h /\ ~HLT(i, j) THEN "PROP:hlc_order"
+    ELSE IF \E i \in 1..(j - 1) : <<i, j>> \in h /\ ~VLT(i, j) THEN "PROP:vc_misses_causal_pair"
+    ELSE IF \E i \in 1..(j - 1) : (VLT(i, j) /\ <<i, j>> \notin h) \/ VLT(j, i)
+         THEN "PROP:vc_orders_unrelated_pair"
+    ELSE ""
 
 \* drift: observed stamps / comparison results vs the model
 ModelVerdict(j, ml, mv, mh) ==
-    LET VLT == SeqSet(Tr.vlt)
-        HLT == SeqSet(Tr.hlt)
-    IN IF Tr.lam[j] # ml THEN "MODEL:lamport_stamp"
-       ELSE IF Tr.vc[j] # mv THEN "MODEL:vector_stamp"
-       ELSE IF Tr.hl[j] # mh THEN "MODEL:hlc_stamp"
-       ELSE IF \E i \in 1..j : \/ (<<i, j>> \in VLT) # (i # j /\ VcLess(Tr.vc[i], Tr.vc[j]))
-                               \/ (<<j, i>> \in VLT) # (i # j /\ VcLess(Tr.vc[j], Tr.vc[i]))
-            THEN "MODEL:happened_before_result"
-       ELSE IF \E i \in 1..j : \/ (<<i, j>> \in HLT) # HlcLess(Tr.hl[i], Tr.hl[j])
-                               \/ (<<j, i>> \in HLT) # HlcLess(Tr.hl[j], Tr.hl[i])
-            THEN "MODEL:hlc_compare_result"
-       ELSE ""
+    IF Tr.lam[j] # ml THEN "MODEL:lamport_stamp"
+    ELSE IF Tr.vc[j] # mv THEN "MODEL:vector_stamp"
+    ELSE IF Tr.hl[j] # mh THEN "MODEL:hlc_stamp"
+    ELSE IF \E i \in 1..(j - 1) : \/ VLT(i, j) # VcLess(Tr.vc[i], Tr.vc[j])
+                                  \/ VLT(j, i) # VcLess(Tr.vc[j], Tr.vc[i])
+         THEN "MODEL:happened_before_result"
+    ELSE IF \E i \in 1..(j - 1) : \/ HLT(i, j) # HlcLess(Tr.hl[i], Tr.hl[j])
+                                  \/ HLT(j, i) # HlcLess(Tr.hl[j], Tr.hl[i])
+         THEN "MODEL:hlc_compare_result"
+    ELSE ""
 
 WellFormed(j) ==
     LET E == Tr.ev[j] IN
@@ -87,11 +85,13 @@ StepEv(j) ==
 
 Finish(verdict, pos) ==
     /\ PrintT(<<"V", Tr.id, verdict, pos>>)
+    /\ PrintT(<<"M", Tr.id, mbad, mpos>>)
     /\ ti' = ti + 1 /\ l' = 1 /\ bad' = "" /\ mbad' = "" /\ mpos' = 0
     /\ lam' = [n \in 1..(IF ti < NT THEN Traces[ti + 1].nn ELSE 1) |-> 0]
     /\ vc' = [n \in 1..(IF ti < NT THEN Traces[ti + 1].nn ELSE 1) |->
                  [k \in 1..(IF ti < NT THEN Traces[ti + 1].nn ELSE 1) |-> 0]]
-    /\ hlc' = [n \in 1..(IF ti < NT THEN Traces[ti + 1].nn ELSE 1) |-> <<0, 0>>]
+    /\ hlc' = [n \in 1..(IF ti < NT THEN Traces[ti + 1].nn ELSE 1) |->
+                  <<(IF ti < NT THEN Traces[ti + 1].z ELSE 0), 0>>]
     /\ ev' = <<>> /\ hb' = {}
 
 TNext ==
